@@ -308,6 +308,7 @@ PROPS = {
     "C20": dict(
         level="exploration", monitors={"mon_life": {"sources": ["mon_life.c", "vf_alloc.c", "vf.c"], "link": ["-Wl,--wrap=malloc,--wrap=calloc,--wrap=realloc,--wrap=free"]}},
         runs=[dict(name="asan", monitor="mon_life", flavour="asan", cases={"quick": 30000, "thorough": 3000000}),
+              dict(name="asan-small-glyph-table", monitor="mon_life", flavour="asan", config="glyphs", defs=["-DPIXMAN_VERIF_GLYPH_HIGH_WATER=4"], cases={"quick": 8000, "thorough": 500000}),
               dict(name="plain", monitor="mon_life", flavour="plain", cases={"quick": 60000, "thorough": 6000000})],
         rule="one case = a random program (6..70 steps, then every held reference dropped in random order and the glyph cache destroyed) of create (bits with library or caller storage, solid, linear/radial/conical) / ref / unref / "
              "set_alpha_map (to a bits image, to itself, to an image that has or is a map, to a non-bits image, re-attach of the current map also after the program dropped its own reference on it, detach) / set_clip_region(32) / set_transform / set_filter (plain, convolution, separable) / set_destroy_function / "
@@ -463,7 +464,7 @@ NOT_CLAIMED = {p: "monitor not built yet in this round (design in DESIGN.md sect
 # The tables were sized while the monitors were being written; measured on 16 idle cores the quick tier then took 1-30 s and the
 # thorough tier 20-130 s per property, so both are scaled up: quick stays a check one runs on every change (under a minute),
 # thorough is the deep run (several minutes per property).  Enumerated scopes (grids, sweeps, exhaustive histories) are not scaled.
-QUICK_SCALE = {"C01": 4, "C02": 3, "C03": 5, "C04": 3, "C05": 4, "C06": 4, "C07": 3, "C08": 5, "C09": 5, "C11": 5, "C12": 5, "C13": 5, "C14": 4,
+QUICK_SCALE = {"C01": 4, "C02": 3, "C03": 5, "C04": 3, "C05": 4, "C06": 4, "C07": 3, "C08": 5, "C09": 5, "C11": 5, "C12": 5, "C13": 2, "C14": 4,
                "C18": 3, "C19": 5, "C20": 4}
 THOROUGH_SCALE = {"C01": 3, "C03": 4, "C04": 3, "C05": 3, "C06": 4, "C07": 6, "C08": 5, "C09": 4, "C11": 2, "C12": 3, "C13": 8, "C14": 3, "C18": 4, "C19": 6, "C20": 3}
 _ENUMERATED = ("exhaustive", "grid", "alpha-sweep")
